@@ -187,12 +187,12 @@ def _fxval(ctx, n, only=None):
         ctx.kinds["fxval:x"] = ctx.kinds.get("fxval:x", 0) + 1
         if b == "opaque":
             opaque += 1
-            if a == "panic" or a == "hang":
+            if a in ("PANIC", "panic", "hang"):
                 b = "no panic / hang"      # never acceptable
             else:
                 continue
         hist[b.split(" ", 1)[0]] = hist.get(b.split(" ", 1)[0], 0) + 1
-        if a == b:
+        if a == b and b != "panic":
             if b != "err":
                 ctx.distinct.add(hash(("fxval", l)))
             if len(ctx.samples) < 16 and ctx.kinds["fxval:x"] % 4999 == 1:
